@@ -36,7 +36,63 @@ def set_summaries(ck):
                    rule="seeded random match matrices (0-5 patterns x 0-7 elements, both rest settings, densities 0/0.2/0.5 so that length failures and assignment failures with surplus elements both occur); distinct = distinct request")
 
 
+VIEW_DECLS = """
+#[derive(Debug, Clone)] pub struct Stack(pub Vec<i32>);
+impl Stack { pub fn as_slice(&self) -> &[i32] { &self.0 } pub fn len(&self) -> usize { self.0.len() } pub fn get(&self, k: &usize) -> Option<&i32> { self.0.get(*k) } }
+impl<'a> IntoIterator for &'a Stack { type Item = &'a i32; type IntoIter = std::slice::Iter<'a, i32>; fn into_iter(self) -> Self::IntoIter { self.0.iter() } }
+#[derive(Debug)] pub struct Holder { pub st: Stack, pub it: std::vec::IntoIter<i32>, pub arr: [i32; 3], pub bx: Box<Vec<i32>>, pub rc: std::rc::Rc<Vec<i32>>, pub os: Option<Stack>, pub pair: (Stack, u8) }
+pub fn mk() -> Holder { Holder { st: Stack(vec![1, 2, 3]), it: vec![1, 2, 3].into_iter(), arr: [1, 2, 3], bx: Box::new(vec![1, 2, 3]), rc: std::rc::Rc::new(vec![1, 2, 3]), os: Some(Stack(vec![1, 2, 3])), pair: (Stack(vec![1, 2, 3]), 0) } }
+pub fn hexd<T: std::fmt::Debug>(x: &T) -> String { format!("{:?}", x).bytes().map(|b| format!("{:02x}", b)).collect() }
+"""
+# (asserted expression, pattern, the expression whose Debug form the single entry must show)
+VIEW_CASES = [
+    ("v.st", "[1, 2]", "v.st"), ("v", "Holder { st: [1, 2], .. }", "v.st"), ("v", "Holder { st: [1, .., 7, 8, 9], .. }", "v.st"), ("v", "_ { st: [9], .. }", "v.st"),
+    ("v", "Holder { it: [9], .. }", "v.it"), ("v.it", "[1, 2, 3, 4]", "v.it"), ("v", "Holder { arr: [1, 2], .. }", "v.arr"), ("v", "Holder { bx: [1], .. }", "v.bx"),
+    ("v", "Holder { rc: [1, 2, 3, 4], .. }", "v.rc"), ("v", "Holder { os: Some([1]), .. }", "v.os.as_ref().unwrap()"), ("v", "Holder { pair: ([1], _), .. }", "v.pair.0"),
+    ("v", "Holder { pair.0: [1], .. }", "v.pair.0"), ("v", "Holder { st.clone(): [1], .. }", "v.st"),
+]
+
+
+def slice_views(ck):
+    """The 'got' text of a failed slice shape is the Debug form of the VALUE at that path - for values that are not a Vec (a user
+    collection with `as_slice()`, `vec::IntoIter`, arrays, Box / Rc of a Vec) as well.  The program prints the Debug form itself."""
+    import t3
+
+    def make(rng, _n):
+        cases = []
+        for k, (asserted, pat, shown) in enumerate(VIEW_CASES):
+            c = t3.Case()
+            c.id = k
+            c.forms = {"slice-view": 1}
+            c.meanings = "(meanings)"
+            t3.finish_case(c, VIEW_DECLS, "Holder", "mk()", "(int 0)", pat)
+            c.text = asserted + ", " + pat
+            c.shown = shown
+            c.post = 'println!("X %d dbg={}", hexd(&%s));' % (k, shown)
+            cases.append(c)
+        return cases
+
+    cases = t3.run_corpus(ck, "c05-views", 0, per_bin=20, positions=make)
+    dist = {}
+    for c in cases:
+        gk = c.got[0]
+        want = bytes.fromhex(getattr(c, "extra", {}).get("dbg", "")).decode("utf-8", "replace") if getattr(c, "extra", {}).get("dbg") else None
+        if gk != "fail" or want is None or len(c.got[1]) != 1:
+            dist["not-a-single-failure:" + gk] = dist.get("not-a-single-failure:" + gk, 0) + 1
+            ck.report("view-case-broken", "a program of the slice-view family does not fail with exactly one entry (%s)" % gk, dict(t3.describe(c)), no_input=True)
+            continue
+        actual = c.got[1][0][2]
+        ok = actual == want
+        dist["got = Debug of the value" if ok else "got is NOT the Debug of the value"] = dist.get("got = Debug of the value" if ok else "got is NOT the Debug of the value", 0) + 1
+        if not ok:
+            ck.report("view:" + c.shown, "the 'got' text of a failed slice pattern is not the Debug form of the value at that path",
+                      dict(t3.describe(c), value_expression=c.shown, debug_of_the_value=want, got_text=actual))
+    ck.corr_record("T3 slice views (failed slice shapes on values that are not a Vec: user collection with as_slice(), vec::IntoIter, array, Box / Rc of a Vec; the program prints the value's own Debug form)",
+                   len(cases), len(cases), 0, dist, samples=[dict(invocation="assert_struct!(%s)" % cases[0].text)], exhaustive=True, rule="%d fixed programs" % len(VIEW_CASES))
+
+
 def run(ck):
     verdicts.check(ck, "C05", ["AsModel.Theorems.C05"])
+    slice_views(ck)
     set_summaries(ck)
     rendered.run(ck, "C05")
